@@ -11,8 +11,25 @@ import WnVerif.Model.Add
 import WnVerif.Model.Query
 import WnVerif.Lemmas.ForIn
 import WnVerif.Lemmas.DbAux
+import WnVerif.Gen.Schema
+import WnVerif.Gen.Misc
 namespace WnVerif.Props.C01
 open WnVerif WnVerif.Db WnVerif.Doc
+
+/-! ### tie to `schema.sql`: the UNIQUE constraints that the model's insert steps enforce
+(`UNIQUE …` error branches of `Model/Add.lean`) are exactly those of the regenerated schema -/
+
+theorem C01_gen_uniques :
+    (Gen.schema.filter (fun t => !t.uniques.isEmpty)).map (fun t => (t.name, t.uniques)) =
+      [("entries", [["id", "lexicon_rowid"]]), ("forms", [["entry_rowid", "form", "script"]]),
+       ("ili_statuses", [["status"]]), ("ilis", [["id"]]), ("lexfiles", [["name"]]),
+       ("lexicon_extensions", [["extension_rowid", "base_rowid"]]), ("lexicons", [["id", "version"]]),
+       ("proposed_ilis", [["synset_rowid"]]), ("relation_types", [["type"]]),
+       ("syntactic_behaviours", [["lexicon_rowid", "frame"], ["lexicon_rowid", "id"]])] := by decide
+
+/-- the default synset rank of a sense that no `members` attribute lists (`DEFAULT_MEMBER_RANK`),
+as passed to the model by the driver -/
+theorem C01_gen_default_member_rank : Gen.default_member_rank = 127 := by decide
 
 /-! ### rowid allocation -/
 
